@@ -1,6 +1,7 @@
 import LekkerVerif.Model.DriverBase
 import LekkerVerif.Model.DriverStack
 import LekkerVerif.Model.DriverParams
+import LekkerVerif.Model.DriverWiring
 /-! Driver ops.  Each op runs executable definitions of the model on the decoded request. -/
 open Lean
 
@@ -130,6 +131,7 @@ def dispatch (j : Json) : Json :=
   | some "solve" => opSolve j
   | some "stack" => opStack j
   | some "rename" => opRename j
+  | some "wiring" => opWiring j
   | some "ping" => Json.mkObj [("ok", true)]
   | _ => errJson "unknown-op"
 
